@@ -1,12 +1,12 @@
 #!/usr/bin/env python3
 """Regenerate MANIFEST.json from checkcfg.py (single source of truth for claimed properties)."""
 import json, subprocess
-from checkcfg import PROPS, NOT_APPLICABLE, LEVEL_TEXT
+from checkcfg import PROPS, NOT_APPLICABLE, LEVEL_TEXT, CLAIMED
 
 hooks = subprocess.run(["git", "-C", "/repo", "log", "--format=%H %s"], capture_output=True, text=True).stdout.splitlines()
 hook_commits = [l.split()[0] for l in hooks if " verif hook" in l]
 checks = []
-for pid in sorted(PROPS):
+for pid in sorted(CLAIMED):
     c = PROPS[pid]
     lt = LEVEL_TEXT[pid]
     checks.append({
@@ -32,7 +32,7 @@ m = {
     },
     "engines": [{
         "name": "lean4-proof+correspondence", "path": "/verif/check",
-        "serves_properties": sorted(PROPS),
+        "serves_properties": sorted(CLAIMED),
         "kind_free_text": "Lean 4 (core only) models + theorems in /verif/lean, facts regenerated from /repo by /verif/extract, Go harness /verif/harness running the real code, compiled Lean driver running model and spec on the same case lines; python driver /verif/check",
     }],
     "checks": checks,
